@@ -10,13 +10,17 @@ EXPLANATION = ("R09.1 per-Age decision table of the age criterion: an OR of `f(c
                "created_at and on a value obtained from Local::now() in this activation; R09.2 AgeOrSize = size or age; R09.3 after a "
                "rotation created_at is re-read from the new file (creation -> modification -> now fallback chain); R09.4 with a current "
                "infix the rotated file is named after the stored start time, which is then replaced by the function's result. R09.3 also: RollState::new takes created_at of the age-bearing variants from the creation timestamp of the path it is given."
-               " R09.5 (shared start table of R06.3/R06.5): an append-restart continues the file with the newest parsed timestamp (maximum, not first listed); a left-over current file is rotated under its own start time.")
+               " R09.5 (shared start table of R06.3/R06.5): an append-restart continues the file with the newest parsed timestamp (maximum, not first listed); a left-over current file is rotated under its own start time."
+               " R09.6 criterion wiring: the Criterion (Age) given to rotate()/o_rotate() reaches the rotation configuration of the state unchanged (shared configuration-wiring tables, rules/cfgwiring.py).")
 ASSUMPTIONS = ["chrono's Datelike/Timelike accessors on DateTime<Local> return the local calendar fields", "Local::now() is the local clock"]
 NOT_DECIDED = ["local-time semantics (zones, DST, clock steps)", "file-system timestamp quality", "what 'started' means after an append-restart"]
 FLOORS = {'R09.1': 4, 'R09.2': 4, 'R09.3': 3, 'R09.4': 3}
 
 
 def run(R, ctx):
+    R.rule('R09.6', 'criterion wiring: the Criterion (Age) given to rotate()/o_rotate() reaches the rotation configuration of the state unchanged')
+    import cfgwiring
+    cfgwiring.config_wiring(R, ctx, 'R09.6', 'C09')
     f, cg = ctx.f, ctx.cg
     R.rule('R09.1', 'TABLE(age decision per Age variant)')
     R.rule('R09.2', 'TABLE(AgeOrSize = size or age)')
